@@ -43,9 +43,9 @@ def obligations(tier):
         Ob("C14.order", "X", "the merged mapping is independent of line order within and across sections; values are carried unchanged", SF,
            bounds="all 6 orders of 3 entries; forall value texts |s|<=2", harness="harness/h_summary.py", func="order_ok", timeout=to),
         Ob("C14.sec", "X", "section transformers: documented converter per key (int / float / passthrough / lookup / date re-punctuation / 'N/A'), independent of key order", TF,
-           bounds="forall pass-through texts |s|<=2, 8-digit dates, both key orders; 7 integer and 7 float spellings (symbolic indices)", harness="harness/h_summary.py", func="sections_ok", timeout=to),
+           bounds="forall pass-through texts |s|<=2, 8-digit dates, both key orders; 4 rows of integer / float spellings (symbolic index)", harness="harness/h_summary.py", func="sections_ok", timeout=to),
         Ob("C14.pinfo", "X", "product information: file roles by NN numbering (first, second, middle, last), shapes (pixels, lines) per index, other keys converted - for permuted lines", TF,
-           bounds="5 permutations x reversed; 3..6 product files; 7 integer spellings per count (symbolic indices)", harness="harness/h_summary.py", func="product_info_ok", timeout=to),
+           bounds="5 permutations x reversed; 3..6 product files; 5 rows of count spellings (symbolic index)", harness="harness/h_summary.py", func="product_info_ok", timeout=to),
         Ob("C14.e2e", "E", "witness replay through open_summary: a full summary in 4 line orders x LF/CRLF gives the same tree; corrupted lines (blank first line, missing quote, "
            "bad section, trailing garbage) are all named in one ExceptionGroup", ["ceos_alos2.summary:open_summary", "ceos_alos2.summary:transform_summary"],
            bounds="concrete replays (not the deciding step)", call="props.c14:ob_e2e"),
